@@ -15,6 +15,9 @@ PENDING = "check not built yet (implementation in progress); the design is in DE
 
 VPNOTE = 'Trusted: clang AST, the path engine, the fact language of sa/vp.py (what counts as a reducing producer / accepted test is listed there), buffer identity by carve expression; frozen per-function tables (point-validation level, accepted alternative forms) carry one reason each. Decides necessary structural conditions, not the numerical statements of the property.'
 CHECKS = {
+ "C04": dict(level="other",
+   text="Validation-presence analysis on all paths of every bake (BMQV/BSTS/BPACE) and BAUTH step: received points pass both coordinate reductions and the on-curve test before any EC arithmetic; each verifying step succeeds only after its MAC / point comparison / certificate callback / component range test accepted, under the same kca/kcb flag as the step that produces the tag (checked over all four flag combinations); ephemeral scalars sampled modulo the order; drivers test every step's result; the state keys K0/K1/K2 are derived by an earlier step of the same party in every flag combination in which a later step reads them. Equality of the derived keys and rejection of every tampered run are value statements and are declined.",
+   design="4/C04", technique="validation-presence dataflow + writer/reader agreement across protocol steps", note=VPNOTE),
  "C02": dict(level="other",
    text="Validation-presence analysis on every path of the bign signing/verification/key-transport/IBS functions: secret scalars are sampled modulo the group order; a loaded private key passes 0<d<q before any use; every operand of a modular routine whose own ASSERT demands operand<modulus is provably reduced at the call (range test with failing arm leaving, reducing producer, conditional subtraction) -- which is exactly the 'hash values >= q' and 's1 range' clauses; decoded points are validated before EC arithmetic; every success return of a verifier/unwrap is dominated by its accepting comparisons. The numerical clauses (signature equals the standard's value, DH symmetry, round trips) are declined.",
    design="4/C02", technique="validation-presence dataflow (must-pass-through on all CFG paths)", note=VPNOTE),
